@@ -15,6 +15,29 @@ def registry():
     return reg
 
 
+def replay(prop, path, tier):
+    """re-run the scenarios of a violation bundle against the current tree and re-validate them"""
+    import json
+    from .common import Verdict
+    from . import runchecks as R
+    data = json.load(open(path))
+    scs = []
+    seen = set()
+    for v in data.get("violations", []):
+        sc = (v.get("detail") or {}).get("scenario")
+        if sc and sc.get("id") not in seen:
+            seen.add(sc.get("id"))
+            scs.append(sc)
+    if not scs:
+        print("bundle holds no run scenario (component case): re-running the whole check")
+        for v in data.get("violations", [])[:5]:
+            print("  recorded:", v.get("clause"), v.get("site"), str(v.get("where"))[:200])
+        return registry()[prop](tier).finish()
+    print(f"replaying {len(scs)} scenario(s) from {path}")
+    v = R.run_level_check(prop, tier, [], level="exploration", design_cfgs=(), extra_panels=[("replay", scs)])
+    return v.finish()
+
+
 def main(argv):
     if not argv:
         print("usage: check <id> [--tier quick|thorough]")
@@ -32,6 +55,8 @@ def main(argv):
         print(f"no check registered for {prop}")
         return 2
     try:
+        if "--replay" in argv:
+            return replay(prop, argv[argv.index("--replay") + 1], tier)
         v = reg[prop](tier)
         return v.finish()
     except MachineryError as e:
